@@ -146,6 +146,13 @@ Fixpoint chk_states_from (i : Z) (tol tau b : Q) (n : nat) (p : positive)
       else if negb (chk_roots tol p (r_inv r) (r_l r) (r_t r) epsroot &&
                     (if Qeq_bool (r_const r) 0 then true
                      else chk_root1 tol p (r_const r) (r_t r + epsroot))) then 7%Z
+      (* escaped-mass budget: every deflation by r removes at least (k+1) r of trace from the sketch
+         (k+1 eigenvalues are lowered by r), so by induction over t_new = b t_old + r and
+         tr C_new = b tr C_old + |G|^2:  (k+1) t <= tr C - sum l.  Without the captured SVD this is
+         what ties t to the recurrence (a history of rank <= k then has t = 0); added after a seeded
+         change that let padding singular values into the escaped mass was missed *)
+      else if negb (Qleb (inject_Z (Z.of_nat (S (length (r_V r)))) * r_t r)
+                         (trace C' - fold_left Qplus (r_l r) 0 + tauC)) then 8%Z
       else 0%Z in
     if (code =? 0)%Z then chk_states_from (i + 1) tol tau b n p (r_V r) C' rest
     else (100 * i + code)%Z
